@@ -55,7 +55,7 @@ class Watchdog(Exception):
     pass
 
 
-def run_until(t, max_steps=200000):
+def run_until(t, max_steps=50000):
     """process every task due up to virtual time t (inclusive), jumping the clock from task to task"""
     import bacpypes.core as bcore
     tm = _TM[0]
